@@ -145,3 +145,25 @@ package pebbledb
 //@   ensures ok: result == nil ==> same(kvdom(), store(old(kvdom()), id, false)) && same(kvvals(), old(kvvals()))
 //@   ensures fail: result != nil ==> same(kvdom(), old(kvdom())) && same(kvvals(), old(kvvals()))
 //@   ensures deferred: kvwrites() == old(kvwrites())
+
+// ---- C10/C06: the pebble driver's writes outside transactions --------------------------------
+// Set and Delete are one top-level write that stores / removes exactly the given key, or
+// fail and change nothing (over the assumed contracts of pebble's DB.Set / DB.Delete).
+//@ func (*PebbleKV).Set
+//@   vars pdb id val
+//@   property C10 C06
+//@   option prelude=kv,kvlib
+//@   nopanic
+//@   requires nonnil: pdb != nil && pdb.db != nil
+//@   ensures nw: kvwrites() == old(kvwrites()) + 1
+//@   ensures ok: result == nil ==> same(kvdom(), store(old(kvdom()), id, true)) && same(kvvals(), store(old(kvvals()), id, val))
+//@   ensures fail: result != nil ==> same(kvdom(), old(kvdom())) && same(kvvals(), old(kvvals()))
+//@ func (*PebbleKV).Delete
+//@   vars pdb id
+//@   property C10 C06
+//@   option prelude=kv,kvlib
+//@   nopanic
+//@   requires nonnil: pdb != nil && pdb.db != nil
+//@   ensures nw: kvwrites() == old(kvwrites()) + 1
+//@   ensures ok: result == nil ==> same(kvdom(), store(old(kvdom()), id, false)) && same(kvvals(), old(kvvals()))
+//@   ensures fail: result != nil ==> same(kvdom(), old(kvdom())) && same(kvvals(), old(kvvals()))
